@@ -45,22 +45,31 @@ func (q *MultiOpQueryer) Subscribe(req *requests.Request, closeCh <-chan struct{
 	errCh := make(chan error)
 	defer close(errCh)
 
+	// closed when the subscription could not be set up: nobody will ever use closeCh or resCh then
+	failedCh := make(chan struct{})
+
 	go func() {
 		defer func() {
 			recover()
 		}()
-		<-closeCh
+		select {
+		case <-closeCh:
+		case <-failedCh:
+		}
 		conn.Close()
 	}()
 
 	go func() {
+		established := false
 		defer func() {
 			defer func() {
 				recover()
 			}()
 			conn.Close()
-			// indicate that it's done
-			resCh <- nil
+			// indicate that it's done (to the listener an established subscription has)
+			if established {
+				resCh <- nil
+			}
 		}()
 
 		bInitMsg, err := json.Marshal(requests.ClientSubMsg{
@@ -93,6 +102,7 @@ func (q *MultiOpQueryer) Subscribe(req *requests.Request, closeCh <-chan struct{
 		}
 
 		// init proccess is done
+		established = true
 		errCh <- nil
 
 		for {
@@ -132,6 +142,7 @@ func (q *MultiOpQueryer) Subscribe(req *requests.Request, closeCh <-chan struct{
 	}()
 
 	if err := <-errCh; err != nil {
+		close(failedCh)
 		return err
 	}
 
